@@ -307,7 +307,8 @@ def judge(res: core.Res, label: str, paths: List[str], fmt: str, o: Outcome, w: 
                         text = _file_text(rp)
                         if text is not None:
                             res.c('quoted_message_files_checked')
-                            if token not in text:
+                            # (field tags are case-insensitive: the message quotes them in lower case, whatever the docstring spells)
+                            if token not in text and not (mm.group(0).startswith('Unknown field') and token.lower() in text.lower()):
                                 res.v('C01:message-names-wrong-file', f'{label}: {m[1][:200]!r}: the file named does not contain {token!r}', **w)
     # artefacts
     res.c('artefact_checks')
